@@ -127,7 +127,8 @@ var exprFrags = []string{"a", "b.c", "1", "-1", "1.5", "'s'", "b'x'", "@p", "NUL
 	"LIKE", "NOT LIKE", "IN (1, 2)", "NOT IN (1)", "IN UNNEST(a)", "BETWEEN 1 AND 2", "NOT BETWEEN a AND b", "IS NULL", "IS NOT NULL", "IS TRUE", "IS NOT FALSE", "NOT", "AND", "OR",
 	"(", ")", "[1]", "[OFFSET(1)]", ".f", "f(1)", "f(a, b)", "CASE WHEN a THEN b END", "IF(a, b, c)", "CAST(a AS INT64)", "ARRAY[1]", "STRUCT(1)", "(SELECT 1)", "EXISTS(SELECT 1)",
 	"[1, 2]", "NEW T(1)", "{a: 1}", "STRUCT<INT64, ARRAY<INT64>>(1, [2])", "NEW T {b: 1}", "NEW T {b: 1, c {d: 2}}", "ARRAY<STRUCT<a INT64>>[(1)]", "STRUCT<a INT64, b STRING>(1, 'x')",
-	"CAST(a AS ARRAY<STRUCT<x INT64>>)", "f(a => 1)", "(SELECT a FROM t WHERE b)", "ARRAY(SELECT 1)", "WITH(a AS 1, a)", "[", "]", "{", "}", "<", ">", "DATE '2020-01-01'", "INTERVAL 1 DAY", "x.*", ",", "AS"}
+	"CAST(a AS ARRAY<STRUCT<x INT64>>)", "f(a => 1)", "(SELECT a FROM t WHERE b)", "ARRAY(SELECT 1)", "WITH(a AS 1, a)", "[", "]", "{", "}", "<", ">", "DATE '2020-01-01'", "INTERVAL 1 DAY", "x.*", ",", "AS",
+	".`select`", ".`all`", ".select", ".1", "CASE a WHEN 1 THEN b ELSE c END", "JSON '{}'", "`from`", "a.`b c`", "@p.f", "f(1).g", "a[0].all"}
 
 // probes: constructs quoted in the property texts and in DESIGN §5 (each must hold after the recorded fixes)
 var probes = []struct{ entry, text string }{
